@@ -224,6 +224,23 @@ def check_identity_term(idx: Index, rep: Report):
     # test of "one control": int or a list of length one
     ok = norm(inner.test) in ("isinstance(control, int) or len(control) == 1", "len(control) == 1 or isinstance(control, int)")
     rep.decide(ok, rule, f, inner, text=f"single-control test: {norm(inner.test)}", what="a bare integer or a one-element list is one control", reason=f"test is {norm(inner.test)}")
+    # a non-identity term is skipped only when its coefficient is (numerically) zero: multiples of pi are NOT skippable, exp(-i k pi P) = (-1)^k
+    guards = [n for n in ast.walk(top[0]) if isinstance(n, ast.If) and any("exp_pauliword_to_gates" in norm(x) for x in n.body) and "coef" in norm(n.test)]
+    if guards:
+        import math
+        from ..consteval import Folder as _F
+        bad = []
+        for cval, want in ((0.0, False), (1e-13, False), (1e-3, True), (-1e-3, True), (math.pi, True), (-2 * math.pi, True), (0.5 * math.pi, True)):
+            fo = _F(env={"coef": cval, "variational": False})
+            try:
+                got = fo.truth(fo.expr(guards[0].test), guards[0].test)
+            except (Undecidable, Raised) as e:
+                raise AnalysisError(f"skip predicate {norm(guards[0].test)} not foldable: {e}")
+            if bool(got) != want:
+                bad.append(f"coef={cval:.4g}: emitted={bool(got)}, expected {want}")
+        rep.decide(not bad, rule, f, guards[0], text=f"emit iff variational or |coef| > threshold ({norm(guards[0].test)[:60]})",
+                   what="a term is dropped only when its coefficient is numerically zero (coefficients that are multiples of pi still contribute a sign / a controlled phase)",
+                   reason="; ".join(bad[:3]))
     # non-identity terms go through exp_pauliword_to_gates with the same control and the real coefficient
     calls = [n for n in ast.walk(top[0]) if isinstance(n, ast.Call) and norm(n.func) == "exp_pauliword_to_gates"]
     ok = len(calls) == 1 and norm(calls[0].args[0]) == "pauli_word" and norm(calls[0].args[1]) == "np.real(coef)" and \
@@ -278,8 +295,14 @@ def check_trotterize(idx: Index, rep: Report):
     ok = bool(rets) and norm(rets[0].value) == "(circuit * n_trotter_steps, phase ** n_trotter_steps) if return_phase else circuit * n_trotter_steps"
     rep.decide(ok, rule, f, rets[0] if rets else f.node, text="circuit * n_steps, phase ** n_steps", what="one step is repeated n_steps times and its phase raised to that power",
                reason=f"return value {norm(rets[0].value) if rets else '?'}")
-    sites = []
+    fbranch = None
     for n in ast.walk(f.node):
+        if isinstance(n, ast.If) and "ofFermionOperator" in norm(n.test):
+            fbranch = n
+    if fbranch is None:
+        raise AnalysisError("trotterize: branch on the operator type not found")
+    sites = []
+    for n in ast.walk(ast.Module(body=fbranch.orelse, type_ignores=[])):
         if isinstance(n, ast.Assign) and norm(n.targets[0]) == "evolve_time" and "n_trotter_steps" in norm(n.value):
             sites.append(n)
     # qubit operator, scalar time
@@ -292,17 +315,34 @@ def check_trotterize(idx: Index, rep: Report):
         norm(dc[0].value.generators[0].iter) == "time.items()"
     rep.decide(ok, rule, f, dc[0] if dc else f.node, text="qubit operator, per-term times: each term's time / n_steps", what="with a time dictionary every term evolves for its own time/n_steps",
                reason=f"{norm(dc[0].value) if dc else '?'}")
-    # fermionic branch: coefficient * evolve_time[term] / n_steps, then exponentiated with time=1
+    # fermionic branch, per path (scalar time / per-term times): the coefficient handed to the mapping is coefficient * time / n_steps
     fer = [n for n in ast.walk(f.node) if isinstance(n, ast.AugAssign) and norm(n.target) == "new_operator"]
-    ok = False
-    if fer and isinstance(fer[0].value, ast.Call) and len(fer[0].value.args) == 2:
-        try:
-            ex = symx.to_sympy(fer[0].value.args[1], {"operator.terms[term]": cf, "evolve_time[term]": t, "n_trotter_steps": nst})
-            ok = symx.equal(ex, cf * t / nst) and norm(fer[0].value.args[0]) == "term"
-        except symx.Untranslatable:
-            ok = False
-    rep.decide(ok, rule, f, fer[0] if fer else f.node, text="fermionic operator: coefficient * time[term] / n_steps folded into the operator",
-               what="for fermionic input the per-step time is folded into each coefficient before mapping", reason=f"{norm(fer[0].value) if fer else '?'}")
+    ev_defs = []
+    for n in ast.walk(ast.Module(body=fbranch.body, type_ignores=[])):
+        if isinstance(n, ast.Assign) and norm(n.targets[0]) == "evolve_time":
+            ev_defs.append(n)
+    ok_paths = {}
+    if fer and isinstance(fer[0].value, ast.Call) and len(fer[0].value.args) == 2 and norm(fer[0].value.args[0]) == "term":
+        for d in ev_defs:
+            v = d.value
+            try:
+                if isinstance(v, ast.DictComp):
+                    per_term = symx.to_sympy(v.value, {"time": t, "n_trotter_steps": nst})
+                    kind = "scalar time"
+                elif isinstance(v, ast.Call) and norm(v.func) in ("deepcopy", "copy.deepcopy", "dict") and norm(v.args[0]) == "time":
+                    per_term = t                       # evolve_time[term] is the caller's time for that term
+                    kind = "per-term times"
+                else:
+                    raise symx.Untranslatable(norm(v))
+                eff = symx.to_sympy(fer[0].value.args[1], {"operator.terms[term]": cf, "evolve_time[term]": per_term, "n_trotter_steps": nst})
+                ok_paths[kind] = (symx.equal(eff, cf * t / nst), str(sp.simplify(eff)))
+            except symx.Untranslatable as e:
+                ok_paths[f"? {norm(v)[:30]}"] = (False, f"not understood: {e}")
+    for kind in ("scalar time", "per-term times"):
+        okk, eff = ok_paths.get(kind, (False, "path not found"))
+        rep.decide(okk, rule, f, fer[0] if fer else f.node, text=f"fermionic operator, {kind}: coefficient * time / n_steps",
+                   what="for fermionic input each step evolves every term for its time / n_steps (folded into the coefficient before mapping)",
+                   reason=f"effective coefficient on this path is {eff}")
     calls = [n for n in ast.walk(f.node) if isinstance(n, ast.Call) and norm(n.func) == "get_exponentiated_qubit_operator_circuit"]
     rep.floor("exponentiation calls in trotterize", len(calls), 2)
     for c in calls:
@@ -313,8 +353,3 @@ def check_trotterize(idx: Index, rep: Report):
         rep.decide(ok, rule, f, c, text=f"exponentiate(qubit_op, time={kws.get('time')}, order, control, return_phase=True)",
                    what="order, control and the phase request are handed to the exponentiation; time is 1 when already folded in, else the step time",
                    reason=f"keywords {kws}")
-    evd = [n for n in ast.walk(f.node) if isinstance(n, ast.Assign) and norm(n.targets[0]) == "evolve_time" and isinstance(n.value, ast.DictComp)
-           and "n_trotter_steps" not in norm(n.value)]
-    ok = bool(evd) and norm(evd[0].value) == "{term: time for term in operator.terms.keys()}"
-    rep.decide(ok, rule, f, evd[0] if evd else f.node, text="fermionic operator, scalar time: every term gets `time`", what="a scalar time applies to every term",
-               reason=f"{norm(evd[0].value) if evd else '?'}")
